@@ -2747,7 +2747,16 @@ fn generate_constraints_expr(
         ExprKind::TaskBlock(block) => {
             // a loop around the task is not a loop the task body can break out of
             ctx.loop_stack.push(None);
+            // `return` in a task ends the task, it does not return from the enclosing function
+            ctx.func_ret_stack.push(Prov::FuncOut(expr.node()));
+            let task_ret_ty = TypeVar::fresh(ctx, Prov::FuncOut(expr.node()));
+            constrain(
+                ctx,
+                &task_ret_ty,
+                &TypeVar::make_void(Reason::Node(expr.node())),
+            );
             generate_constraints_expr(ctx, polyvar_scope, Mode::Syn, block);
+            ctx.func_ret_stack.pop();
             ctx.loop_stack.pop();
             constrain(
                 ctx,
